@@ -221,7 +221,21 @@ pub fn inputs_c14(r: &mut Rng, n: usize, _tier: &str, out: &mut dyn Write) {
         } else {
             a
         };
-        match r.below(7) {
+        match r.below(10) {
+            7 | 8 | 9 => {
+                // the same operations on an EPOCH act on its elapsed time in its own scale, whatever the scale
+                // and also before the scale's reference epoch (negative elapsed time); steps of either sign up
+                // to centuries
+                const ALL9: [&str; 9] = ["TAI", "TT", "UTC", "GPST", "GST", "BDT", "QZSST", "ET", "TDB"];
+                let ts = *r.pick(&ALL9);
+                let op = *r.pick(&["efloor", "eceil", "eround"]);
+                let e = match r.below(3) {
+                    0 => a,
+                    1 => -a.abs(),
+                    _ => (r.range_i64(-3_652_500, 3_652_500) as i128) * 86_400_000_000_000 + r.below(86_400_000_000_000) as i128,
+                };
+                writeln!(out, "{} {}:{} {}", op, dstr(e), ts, dstr(s)).unwrap()
+            }
             0 | 1 => writeln!(out, "floor {} {}", dstr(a), dstr(s)).unwrap(),
             2 | 3 => writeln!(out, "ceil {} {}", dstr(a), dstr(s)).unwrap(),
             4 | 5 => writeln!(out, "round {} {}", dstr(a), dstr(s)).unwrap(),
